@@ -192,6 +192,10 @@ pub enum P {
     Panic,
     Catch(Vec<P>),
     InstallGlobal(usize),
+    /// emission during which the recorder in scope panics (caught at the call site)
+    EmitPanic(usize),
+    /// emission during which the recorder in scope emits a metric of its own
+    EmitReenter(usize),
 }
 
 #[derive(Clone, Debug, Serialize, Deserialize)]
@@ -210,6 +214,8 @@ struct Unwind;
 struct ThreadCtx<'a> {
     tid: u32,
     recs: &'a [RecRef],
+    shareds: &'a [Arc<Shared>],
+    full: bool,
     g: &'a Mutex<GState>,
     log: &'a crate::doubles::Log,
     guards: Vec<Option<(usize, LocalRecorderGuard<'static>, usize, Option<usize>)>>, // (scope id, guard, rec, impl-model prev)
@@ -296,11 +302,51 @@ impl<'a> ThreadCtx<'a> {
         }
     }
 
+    /// The recorder in scope misbehaves during this emission: it panics (caught right here), or
+    /// it emits a metric of its own from inside the call. Neither may change where this thread's
+    /// emissions go afterwards, and the nested emission belongs to the same innermost recorder.
+    fn emit_faulty(&mut self, i: usize, panic: bool) {
+        let target = self.spec.last().map(|s| s.1).or(self.g.lock().unwrap().done);
+        let r = match (target, self.full) {
+            (Some(r), false) => r,
+            _ => return self.emit(i),
+        };
+        let sh = &self.shareds[r];
+        let before = self.log.lock().unwrap().len();
+        *self.emitted.lock().unwrap() += 1;
+        if panic {
+            crate::doubles::set_flag(&sh.panic_next, self.tid);
+            let res = catch_unwind(AssertUnwindSafe(|| {
+                site(i % NSITES);
+            }));
+            let fired = !crate::doubles::take_flag(&sh.panic_next, self.tid);
+            if let Err(p) = res {
+                if !p.is::<crate::doubles::DoublePanic>() {
+                    std::panic::resume_unwind(p);
+                }
+            }
+            if !fired {
+                self.fail("dispatched-to-wrong-recorder", format!("t{} site {}: the emission did not enter recorder {} (innermost live scope, else global) at all", self.tid, i, r));
+            }
+        } else {
+            crate::doubles::set_flag(&sh.reenter_next, self.tid);
+            site(i % NSITES);
+            let fired = !crate::doubles::take_flag(&sh.reenter_next, self.tid);
+            let new: Vec<Ev> = self.log.lock().unwrap()[before..].iter().filter(|e| e.tid == self.tid && (e.op.starts_with("register") || e.op.starts_with("describe"))).cloned().collect();
+            let ok = fired && new.len() == 2 && new[0].rec as usize == r && new[1].rec as usize == r && new[1].name == "nested_emission";
+            if !ok {
+                self.fail("nested-emission-misdirected", format!("t{} site {}: recorder {} (innermost live scope, else global) emits a metric of its own while handling the call; expected both calls on recorder {}, saw {:?}", self.tid, i, r, r, new.iter().map(|e| (e.rec, e.op.clone(), e.name.clone())).collect::<Vec<_>>()));
+            }
+        }
+    }
+
     fn run(&mut self, prog: &[P]) -> Result<(), Unwind> {
         for p in prog {
             dsim::point("c01.op");
             match p {
                 P::Emit(i) => self.emit(*i),
+                P::EmitPanic(i) => self.emit_faulty(*i, true),
+                P::EmitReenter(i) => self.emit_faulty(*i, false),
                 P::Scope(r, body) => {
                     let rec = self.recs[*r % self.recs.len()];
                     let r = *r % self.recs.len();
@@ -393,7 +439,7 @@ impl<'a> ThreadCtx<'a> {
 fn gen_prog(r: &mut Rng, depth: u32, n: u64, nrec: usize, full: bool, slots: &mut Vec<bool>, in_catch: bool) -> Vec<P> {
     let mut out = vec![];
     for _ in 0..n {
-        match r.below(14) {
+        match r.below(15) {
             0..=4 => out.push(P::Emit(r.below(NSITES as u64) as usize)),
             5..=6 => {
                 if depth < 5 {
@@ -447,6 +493,10 @@ fn gen_prog(r: &mut Rng, depth: u32, n: u64, nrec: usize, full: bool, slots: &mu
                     out.push(P::InstallGlobal(r.below(nrec as u64) as usize));
                 }
             }
+            13 => {
+                let i = r.below(NSITES as u64) as usize;
+                out.push(if r.chance(500) { P::EmitPanic(i) } else { P::EmitReenter(i) });
+            }
             _ => out.push(P::Emit(r.below(NSITES as u64) as usize)),
         }
     }
@@ -486,15 +536,16 @@ impl Scenario for C01Scopes {
     fn execute(&self, plan: &Plan, sched: &SchedSpec) -> RunReport {
         metrics::__verif_reset_global_recorder();
         let log = new_log();
+        let shareds: Vec<Arc<Shared>> = (0..plan.nrec).map(|_| Shared::new(log.clone())).collect();
         let mut recs: Vec<RecRef> = vec![];
         while recs.len() < plan.nrec {
-            let i = recs.len() as u32;
+            let i = recs.len();
             if plan.aliased && recs.len() + 1 < plan.nrec {
-                let pair: &'static Pair = Box::leak(Box::new(Pair { a: LogRecorder::new(i, Shared::new(log.clone())), b: LogRecorder::new(i + 1, Shared::new(log.clone())) }));
+                let pair: &'static Pair = Box::leak(Box::new(Pair { a: LogRecorder::new(i as u32, shareds[i].clone()), b: LogRecorder::new(i as u32 + 1, shareds[i + 1].clone()) }));
                 recs.push(&pair.a);
                 recs.push(pair);
             } else {
-                let r: &'static LogRecorder = Box::leak(Box::new(LogRecorder::new(i, Shared::new(log.clone()))));
+                let r: &'static LogRecorder = Box::leak(Box::new(LogRecorder::new(i as u32, shareds[i].clone())));
                 recs.push(r);
             }
         }
@@ -502,14 +553,14 @@ impl Scenario for C01Scopes {
         let errors: Arc<Mutex<Vec<(String, String)>>> = Arc::new(Mutex::new(vec![]));
         let emitted: Arc<Mutex<u64>> = Arc::new(Mutex::new(0));
         let p = plan.clone();
-        let (l2, e2, em2, recs2, g2) = (log.clone(), errors.clone(), emitted.clone(), recs.clone(), gstate.clone());
+        let (l2, e2, em2, recs2, g2, sh2, full) = (log.clone(), errors.clone(), emitted.clone(), recs.clone(), gstate.clone(), shareds.clone(), plan.full);
         let sim = simulate(sched, 100_000, move || {
             let mut hs = vec![];
             for (ti, prog) in p.threads.iter().enumerate() {
                 let prog = prog.clone();
-                let (log, errors, emitted, recs, g) = (l2.clone(), e2.clone(), em2.clone(), recs2.clone(), g2.clone());
+                let (log, errors, emitted, recs, g, shareds) = (l2.clone(), e2.clone(), em2.clone(), recs2.clone(), g2.clone(), sh2.clone());
                 hs.push(dsim::spawn(&format!("p{}", ti + 1), move || {
-                    let mut ctx = ThreadCtx { tid: dsim::tid(), recs: &recs, g: &g, log: &log, guards: vec![], next_scope: 0, spec: vec![], impl_cur: None, forgot: false, non_lifo: false, errors: &errors, emitted: &emitted };
+                    let mut ctx = ThreadCtx { tid: dsim::tid(), recs: &recs, shareds: &shareds, full, g: &g, log: &log, guards: vec![], next_scope: 0, spec: vec![], impl_cur: None, forgot: false, non_lifo: false, errors: &errors, emitted: &emitted };
                     let _ = ctx.run(&prog);
                     // thread exit with scopes still open: guards are dropped most-recent-first
                     while let Some(g) = ctx.guards.pop() {
